@@ -83,6 +83,7 @@ def run_one(seed, preset=None, tier="quick", want_case=False):
     name = "%s_%d" % (ID, seed)
     viol, names, history = [], [name], []
     baseline = {}
+    flooded = [0]
     out = None
     digests = []
     try:
@@ -101,7 +102,16 @@ def run_one(seed, preset=None, tier="quick", want_case=False):
                 baseline[key] = solo.resp if (so.exc is None and solo.exc is None) else ("EXC", repr(so.exc or solo.exc))
             return baseline[key]
 
+        flood_at = ot.draw(nsteps) if (cache == "lru512" and ot.chance(8 if tier == "quick" else 15)) else None
         for step in range(nsteps):
+            if step == flood_at:
+                # push the default LRU(512) past its capacity: every earlier entry is evicted
+                async def flood():
+                    for n in range(520):
+                        await engine.execute("{ __typename } # flood %d" % n)
+                from simv.simloop import SimLoop as _SL, run_sim as _rs
+                _rs(_SL(tape.sub("flood"), "fifo", 0, "none"), flood())
+                flooded[0] = 1
             k = 2 if ot.chance(20) else 1
             batch = []
             for j in range(k):
@@ -150,7 +160,7 @@ def run_one(seed, preset=None, tier="quick", want_case=False):
     r0["metrics"] = {"history_steps": len(history), "repeated_requests": repeats, "cache_" + cache: 1}
     if memo is not None:
         r0["metrics"].update({"memo_hits": memo.hits, "memo_misses": memo.misses})
-    r0["faults"] = {"cache_entry_forgotten": memo.forgotten if memo is not None else 0}
+    r0["faults"] = {"cache_entry_forgotten": memo.forgotten if memo is not None else 0, "lru512_flooded_past_capacity": flooded[0]}
     for x in pool:
         if x.plan is not None:
             for k2, n in x.plan.faults_fired.items():
